@@ -1098,8 +1098,10 @@ def generated_requests(chk, tier, seed):
         for a, b in c07.make_pairs(fam, ty, 2 if quick else 8, rng):
             if not (isinstance(a, float) and isinstance(b, float)) or a != a or b != b or abs(a) == float("inf") or abs(b) == float("inf"):
                 continue
-            if a == b:
-                continue      # 0.0 / -0.0: the shared name constant_f0 is a known finding with its own programs (PrinterTerms.consts)
+            with numpy.errstate(all="ignore"):
+                if a == b or numpy.float32(a) == numpy.float32(b):
+                    continue      # 0.0 / -0.0 (also after rounding to the float32 variant): the shared name constant_f0 is a
+                                  # known finding with its own programs (PrinterTerms.consts)
             c1, c2 = ["numv", float(a).hex(), X], ["numv", float(b).hex(), X]
             terms.append(["add", ["select", B, ["multiply", X, c1], ["multiply", Y, c1]],
                           ["select", B, ["multiply", X, c2], ["multiply", Y, c2]]])
@@ -1324,6 +1326,9 @@ def load_class(r):
     m = re.match(r"request for member ‘(\w+)’ in ", e)
     if m:
         return "request for member `%s` in an expression of non-class (real) type" % m.group(1)
+    if e.startswith("could not convert") and "complex<" in e:
+        # (the quoted expression varies with the program: the class is the conversion between complex widths)
+        return "could not convert an expression from `complex<T>` to `complex<T>` (complex widths mixed)"
     e = re.sub(r"\(.*?\)", "()", e)
     e = re.sub(r"(std::complex<\w+>|\b(long double|double|float|int|long|bool)\b)&?", "T", e)
     e = re.sub(r"\d+", "N", e)
